@@ -17,8 +17,12 @@ pub fn run(ctx: &RunCtx) -> i32 {
         "C02" => c02::run(ctx),
         "C03" => c03::run(ctx),
         "C04" => c04::run(ctx),
+        "C05" => crate::e3::c05::run(ctx),
+        "C06" => crate::e3::c06::run(ctx),
         "C09" => c09::run(ctx),
         "C10" => c10::run(ctx),
+        "C11" => crate::e3::c11::run(ctx),
+        "C12" => crate::e3::c12::run(ctx),
         "C14" => c14::run(ctx),
         "C16" => c16::run(ctx),
         "C18" => c18::run(ctx),
